@@ -308,7 +308,10 @@ impl Distribution<u64> for Hypergeometric {
                 let mut u = rng.random::<f64>();
 
                 // the paper erroneously uses `until n < p`, which doesn't make any sense
-                while u > p && x < k as i64 {
+                // `x` cannot exceed `min(n1, k)`; without the bound on `n1` the walk
+                // continues past the support when rounding leaves `u` above the
+                // accumulated probability (the factor `n1 - x` then turns negative)
+                while u > p && x < u64::min(n1, k) as i64 {
                     #[cfg(rand_distr_verif)]
                     crate::verif_hooks::probe(47);
                     u -= p;
